@@ -6,9 +6,15 @@ HOOK_COMMITS = ['53a9175']
 
 # id -> (technique, level text, level note, design ref)
 CLAIMED = {
+ 'C10': ('exhaustive truth matrix (value types x testing constructs) + bounded-exhaustive logic/conditional ASTs run under recording hosts, trace-differential against the reference evaluator',
+         '32 values of every type (empty and non-empty) x 15 testing constructs x 2 implementations exhaustively: false exactly for unit and $!, booleans from && and ||; and every AST of at most 6 (quick) / 7 (thorough) nodes over three host-observable identifiers, $?, $! and ?> !> |> && || ^^ !! ??, under 4 scripted hosts: order and multiplicity of resolve calls and the value must equal the reference (right operands and arms evaluated only when selected, chain conditions in order).',
+         'Reference evaluator for the expected trace; else chains without default are left to the C06 finding.', 'DESIGN.md §3 C10'),
  'C13': ('bounded-exhaustive string enumeration + proptest-generated fragment soups against a reference token table (round-trip, position recount, class validity, maximal munch, blank-line metamorphic)',
          'Every string up to length 4 (quick) / 5 (thorough, 1.3e8 strings) over a 42-character alphabet with one representative per lexical character class, every ordered pair of token spellings with three separators, and random fragment soups; each successful lex is judged for lossless round-trip, non-empty tokens, exact (line, column), membership of each token in its class per an independent token table, maximal munch, and stability of blank-line classification under added spaces/tabs.',
          'Trusts the reference token table in model/reflex.rs (a transcription of the language operator spellings and literal forms); CR/FF excluded from the position and whitespace clauses; Err results are never judged.', 'DESIGN.md §3 C13'),
+ 'C01': ('bounded-exhaustive AST enumeration + proptest-generated larger ASTs, differential against an independent reference evaluator over the reference parser tree',
+         'Every core-language AST with at most 4 (quick) / 5 (thorough, 4.6e6) nodes over 10 leaves, 11 unary and 32 binary constructs, printed with minimal parentheses from the independent operator table, and random larger programs (conditional chains, applied nested expressions, counter-bounded reapply loops, side effects, sequencing) in spaced and tight layouts, run on both data implementations with several input values; the read-back of the final value must be structurally identical to the value of a tree-walking reference evaluator, and a well-formed program must not be rejected, fail or run away.',
+         'As right as the reference evaluator (model/refeval.rs, calibrated on the 19 repository scripts in its scope, on which it agrees with both implementations); constructs whose meaning is unsettled or covered by an open finding are discarded, and counted in the evidence.', 'DESIGN.md §2, §3 C01'),
  'C02': ('bounded-exhaustive operator pairs/triples + proptest-generated deeper expressions, differential against an independent precedence-climbing parser, plus fully-parenthesised re-parse (metamorphic)',
          'Every ordered pair (x4 layout/atom variants) and triple (x2) of all 54 operators of an independent operator table, level-representative triples with one operand wrapped in ( ) or { }, level-representative quadruples (thorough) and random deeper expressions with groups; the parse tree must equal the tree a table-driven Pratt parser produces, and re-parsing the fully parenthesised print of the obtained tree must give the same tree modulo Group nodes.',
          'Trusts the operator table of DESIGN.md Appendix A (model/optable.rs) and the ~100-line reference parser; rejected inputs and lexical merges are counted, never judged.', 'DESIGN.md §3 C02'),
@@ -24,6 +30,12 @@ CLAIMED = {
  'C06': ('abstract interpretation of operand depth over all paths of every accepted program + per-step dynamic effect checking with a shadow call stack on both data implementations; reapply loops at several iteration counts',
          'For every accepted program of the corpus (bare `;;` excluded): static analysis assigns one operand depth per instruction over all paths (never negative, 1 at EndExpression, bodies entered at 0); the program is then stepped on SimpleGarnishData and BasicGarnishData and after every instruction the change in pending operands must equal that instruction abstract effect, EndExpression must see exactly one pending operand in its frame, and at the end operand stack, input-value stack and frames are back at their initial depths; 8 reapply-loop programs x 6 iteration counts must run in depth independent of the count.',
          'Abstract effects per instruction are DESIGN.md Appendix B; runs that stop with a non-underflow runtime error give no verdict; five recorded constructs (empty program, empty group, misplaced side effect, else chain without default, reapply under an operator) are keyed and excluded as known findings.', 'DESIGN.md §3 C06'),
+ 'C17': ('bounded-exhaustive ASTs with identifiers and externals at every operand position + random programs, run under scripted recording hosts; call-trace differential against the reference evaluator',
+         'Every AST of at most 5 (quick) / 6 (thorough) nodes over identifiers bound by the input, bound to externals, or unknown, with apply / apply-to / empty-apply / conditionals / logic / pair / list / sequencing, under 4 hosts (resolve none/some/all, answer externals 7 / 7 and 8 / none) on both implementations, plus random larger programs: the recorded resolve(symbol) and apply(external, argument) calls must equal the reference events in order and multiplicity and the value must match (declined => unit, accepted => the host value).',
+         'Reference evaluator for expected events; SimpleGarnishData has no external-apply hook (externals yield unit there without a call).', 'DESIGN.md §3 C17'),
+ 'C18': ('metamorphic: every single layout rewrite at every position of bounded-exhaustive small programs, random subsets on random programs; parse tree modulo trivia and values on both implementations must not change',
+         'All core ASTs of at most 3 (quick) / 4 (thorough) nodes and random larger ones; each gap between tokens rewritten to none / one / many spaces / tab / line break / annotation / comment line, leading and trailing trivia, parentheses around each operand, a constant side-effect block after each value; a rewrite counts only if the lexer still yields the same significant tokens; the tree modulo Group / side-effect nodes and the final values (2 implementations x 2 inputs) must be unchanged.',
+         'Rewrites that are not meaning-preserving by the language rules (property names, same-kind list items, else-chain arms, separators in parentheses) are excluded by construction.', 'DESIGN.md §3 C18'),
  'C09': ('bounded-exhaustive enumeration + proptest-generated operand tapes against an i128 / IEEE-754 reference',
          'Every ordered pair of the 187-value boundary lattice x 12 binary operators and lattice+float pool x 5 unary operators exhaustively, a 62x62 float/mixed matrix, plus millions of random i32/f64 pairs; each compared on the GarnishNumber methods and on the executed instruction for both data implementations with a wide-integer/IEEE reference. Exhaustive on the stated lattice, sampled beyond it.',
          'Trusts the i128/f64 reference in checks/c09.rs and the platform powf; operands are finite.', 'DESIGN.md §3 C09'),
